@@ -90,6 +90,8 @@ pub enum Val {
     Lmer(u8, Vec<u8>),
     BaseGraph(GraphSpec),
     Graph(GraphSpec, bool),
+    /// finished graph whose node payload is: 0 u128, 1 BTreeMap<u32,u32>, 2 Vec<u8>, 3 (u32, String), 4 Option<i64>
+    GraphData(GraphSpec, u8),
 }
 
 #[derive(Clone, Debug, Serialize, Deserialize)]
@@ -238,6 +240,44 @@ fn graph_rt<K: Kmer + Send + Sync + Serialize + DeserializeOwned>(g: &GraphSpec,
     round_trip("serde DebruijnGraph", &dg, c, rec, &|a: &DebruijnGraph<K, u16>, b: &DebruijnGraph<K, u16>| graph_same(a, b))
 }
 
+fn graph_with_data<K: Kmer + Send + Sync, D: Clone + Debug>(g: &GraphSpec, f: &dyn Fn(u16, usize) -> D) -> DebruijnGraph<K, D> {
+    let b: BaseGraph<K, u16> = base_graph_for::<K>(g);
+    let mut out: BaseGraph<K, D> = BaseGraph::new(b.stranded);
+    for i in 0..b.len() {
+        let s = b.sequences.get(i);
+        let bases: Vec<u8> = (0..s.len()).map(|j| s.get(j)).collect();
+        out.add(bases.iter(), b.exts[i], f(b.data[i], i));
+    }
+    out.finish_serial()
+}
+
+fn graph_data_rt<K: Kmer + Send + Sync + Serialize + DeserializeOwned>(g: &GraphSpec, kind: u8, c: &SerdeCase, rec: &mut Rec) -> Result<(), Violation> {
+    use std::collections::BTreeMap;
+    rec.count("reach_graph_with_rich_payload");
+    match kind % 5 {
+        0 => {
+            let dg = graph_with_data::<K, u128>(g, &|d, i| ((d as u128) << 70) | (i as u128) | (1u128 << 127));
+            round_trip("serde DebruijnGraph<u128 payload>", &dg, c, rec, &|a: &DebruijnGraph<K, u128>, b: &DebruijnGraph<K, u128>| graph_same(a, b))
+        }
+        1 => {
+            let dg = graph_with_data::<K, BTreeMap<u32, u32>>(g, &|d, i| [(d as u32, i as u32), (7, 9)].into_iter().collect());
+            round_trip("serde DebruijnGraph<map payload>", &dg, c, rec, &|a: &DebruijnGraph<K, BTreeMap<u32, u32>>, b: &DebruijnGraph<K, BTreeMap<u32, u32>>| graph_same(a, b))
+        }
+        2 => {
+            let dg = graph_with_data::<K, Vec<u8>>(g, &|d, i| vec![d as u8, i as u8]);
+            round_trip("serde DebruijnGraph<vec payload>", &dg, c, rec, &|a: &DebruijnGraph<K, Vec<u8>>, b: &DebruijnGraph<K, Vec<u8>>| graph_same(a, b))
+        }
+        3 => {
+            let dg = graph_with_data::<K, (u32, String)>(g, &|d, i| (d as u32, format!("n\"{}\\", i)));
+            round_trip("serde DebruijnGraph<tuple payload>", &dg, c, rec, &|a: &DebruijnGraph<K, (u32, String)>, b: &DebruijnGraph<K, (u32, String)>| graph_same(a, b))
+        }
+        _ => {
+            let dg = graph_with_data::<K, Option<i64>>(g, &|d, i| if i % 2 == 0 { Some(-(d as i64) - (1 << 40)) } else { None });
+            round_trip("serde DebruijnGraph<option payload>", &dg, c, rec, &|a: &DebruijnGraph<K, Option<i64>>, b: &DebruijnGraph<K, Option<i64>>| graph_same(a, b))
+        }
+    }
+}
+
 macro_rules! all_kmer_types {
     ($name:expr, $f:ident, $args:tt) => {
         with_k!(
@@ -301,6 +341,7 @@ impl Harness for SerdeCheck {
                 Val::Lmer(words, dna::random_seq(rng, len, &[0, 1, 2, 3]))
             }
             7 => Val::BaseGraph(gen_graph_spec(rng, &KTYPES, 6, 100)),
+            8 => Val::GraphData(gen_graph_spec(rng, &KTYPES, 6, 100), rng.below(5) as u8),
             _ => Val::Graph(gen_graph_spec(rng, &KTYPES, 6, 100), rng.chance(1, 2)),
         };
         SerdeCase {
@@ -372,6 +413,7 @@ impl Harness for SerdeCheck {
                 }
             }
             Val::BaseGraph(g) => with_k!(g.ktype.as_str(), [Kmer4, Kmer5, Kmer6, Kmer8, Kmer12, Kmer16, Kmer20, KmerK31, Kmer32, Kmer40, Kmer48, Kmer64], basegraph_rt, (g, c, rec)),
+            Val::GraphData(g, kind) => with_k!(g.ktype.as_str(), [Kmer4, Kmer5, Kmer6, Kmer8, Kmer12, Kmer16, Kmer20, KmerK31, Kmer32, Kmer40, Kmer48, Kmer64], graph_data_rt, (g, *kind, c, rec)),
             Val::Graph(g, par) => with_k!(g.ktype.as_str(), [Kmer4, Kmer5, Kmer6, Kmer8, Kmer12, Kmer16, Kmer20, KmerK31, Kmer32, Kmer40, Kmer48, Kmer64], graph_rt, (g, *par, c, rec)),
         }
     }
@@ -403,6 +445,13 @@ impl Harness for SerdeCheck {
                 for s in shrink_graph_spec(g) {
                     let mut x = c.clone();
                     x.val = Val::BaseGraph(s);
+                    out.push(x);
+                }
+            }
+            Val::GraphData(g, k) => {
+                for s in shrink_graph_spec(g) {
+                    let mut x = c.clone();
+                    x.val = Val::GraphData(s, *k);
                     out.push(x);
                 }
             }
@@ -457,6 +506,11 @@ pub enum ExportOp {
     JsonRest(bool),
     /// to_json_rest with `rest = Some({})`
     JsonEmptyRest,
+    /// to_json_rest with a `rest` that is not an object: 0 null, 1 array, 2 string, 3 number
+    JsonOddRest(u8),
+    /// a write_gfa into a sink that fails at this byte offset, then a write_gfa of the same graph
+    /// into a healthy sink on the same thread (state left behind by the failed export)
+    GfaAfterFailure(usize),
     /// to_gfa_with_tags to X.gfa whose tag callback, at node `at mod len`, runs a complete
     /// to_gfa of the same graph to the sibling path X.plain (two exports interleaved through the
     /// only seam the exporter has: its callback)
@@ -800,13 +854,51 @@ fn run_export<K: Kmer + Send + Sync>(c: &ExportCase, rec: &mut Rec) -> Result<()
                 }
             }
         }
-        ExportOp::JsonRest(_) | ExportOp::JsonEmptyRest => {
+        ExportOp::GfaAfterFailure(off) => {
+            rec.choice("failed_export_first", *off as u64, false);
+            let mut p = IoPlan::clean();
+            p.hard = Some(Hard::ErrAt(*off));
+            let mut w = SimWriter::new(p);
+            let first = guarded(|| g.write_gfa(&mut w));
+            let fired = w.hard_fired();
+            let _ = w.finish(rec);
+            if fired {
+                rec.count("env_export_after_failed_export");
+            }
+            if let Ok(Ok(())) = first {
+                // the offset was beyond the output: nothing failed; still fine
+            }
+            let mut second: Vec<u8> = Vec::new();
+            match guarded(|| g.write_gfa(&mut second)) {
+                Ok(Ok(())) => {
+                    if second != clean_gfa {
+                        return Err(Violation::new(
+                            "stream-bytes-differ",
+                            "write_gfa after a failed write_gfa",
+                            format!("the export following a failed one holds {} bytes, a fresh export gives {}", second.len(), clean_gfa.len()),
+                        ));
+                    }
+                }
+                Ok(Err(e)) => return Err(Violation::new("healthy-disk-failed", "write_gfa after a failed write_gfa", format!("{}", e))),
+                Err((loc, msg)) => return Err(Violation::new("panic", "write_gfa after a failed write_gfa", format!("panicked at {}: {}", loc, msg))),
+            }
+        }
+        ExportOp::JsonRest(_) | ExportOp::JsonEmptyRest | ExportOp::JsonOddRest(_) => {
             rec.choice("plan_hard", c.plan.hard.is_some() as u64, c.plan.is_clean());
             let rest = match &c.op {
                 ExportOp::JsonRest(true) => Some(json!({"alpha": [1, 2, 3], "beta": {"x": "y"}})),
                 ExportOp::JsonEmptyRest => {
                     rec.count("reach_json_empty_rest_object");
                     Some(json!({}))
+                }
+                ExportOp::JsonOddRest(kind) => {
+                    rec.count("reach_json_non_object_rest");
+                    Some(match kind % 4 {
+                        0 => Value::Null,
+                        1 => json!([1, "two", {"three": 3}]),
+                        2 => json!("just a string"),
+                        _ => json!(42),
+                    })
                 }
                 _ => None,
             };
@@ -1082,7 +1174,14 @@ impl Harness for ExportCheck {
             graph.stranded = false;
         }
         let op = match rng.below(43) {
-            40 => ExportOp::JsonEmptyRest,
+            40 => {
+                if rng.chance(1, 2) {
+                    ExportOp::JsonEmptyRest
+                } else {
+                    ExportOp::JsonOddRest(rng.below(4) as u8)
+                }
+            }
+            0 | 1 => ExportOp::GfaAfterFailure(rng.range(0, 400)),
             41 | 42 => ExportOp::NestedTags(rng.below(1 << 16)),
             0..=19 => ExportOp::WriteGfa,
             20..=33 => ExportOp::JsonRest(rng.chance(1, 2)),
